@@ -830,9 +830,12 @@ class TrueTypeFont:
                     Tuple[int, ...],
                     struct.unpack(">%dH" % segcount, fp.read(2 * segcount)),
                 )
-                for ec, sc, idd, idr in zip(ecs, scs, idds, idrs):
+                for seg, (ec, sc, idd, idr) in enumerate(zip(ecs, scs, idds, idrs)):
                     if idr:
-                        fp.seek(pos + idr)
+                        # idRangeOffset counts from the position of its own
+                        # entry in the idRangeOffset array, not from the
+                        # start of that array.
+                        fp.seek(pos + 2 * seg + idr)
                         for c in range(sc, ec + 1):
                             b = cast(Tuple[int], struct.unpack(">H", fp.read(2)))[0]
                             char2gid[c] = (b + idd) & 0xFFFF
